@@ -22,6 +22,18 @@ func runC16(c *Ctx) {
 	c.checkJoinProtocol(sc, "")
 	L.Floor("wg-done", 2, "Phase workers + Wait")
 	L.Floor("chan-close", 2, "phased, seqs")
+	// per-worker state must be private: no scalar or struct variable shared between the workers
+	// is written without a lock (the shared err is written only when an alignment error occurred)
+	c.locksetErrOnly = map[string]string{"err": "C16 is stated for runs in which no alignment error is reported"}
+	c.checkLockset(ph, "lockset")
+	c.locksetErrOnly = nil
+	L.Rule("best-record-replaced", "in the search for the best reference/frame, when a candidate with a better score is found every field of the best record (start, end, sequence, alignment, leading-gap count, ratios) is recomputed from that candidate alone, never from its own previous value")
+	nb := 0
+	for _, nme := range []string{"alignAgainstRefsAA", "alignAgainstRefsNT"} {
+		nb += c.checkBestRecordReplaced("best-record-replaced", c.fn("align", "*phaser", nme))
+	}
+	L.Floor("best-record-replaced", 8, "fields of the best record in the two search loops")
+	L.Floor("lockset", 1, "err (workers' result variables are closure-local)")
 
 	c.checkOneSendPerItem(ph, "one-send-per-item", func(mk *ssa.MakeChan) bool {
 		return strings.Contains(mk.Type().String(), "PhasedSequence")
